@@ -448,6 +448,8 @@ impl Task {
                         self.pid, self.id
                     )));
                 }
+                // what is still open beneath the task (the steps of a catch it is running) is closed with it
+                ctx.skip_tasks_beneath(self)?;
                 self.set_state(TaskState::Removed);
                 self.next(ctx)?;
             }
@@ -458,6 +460,8 @@ impl Task {
                         self.pid, self.id
                     )));
                 }
+                // what is still open beneath the task (the steps of a catch it is running) is closed with it
+                ctx.skip_tasks_beneath(self)?;
                 self.set_state(TaskState::Submitted);
                 self.next(ctx)?;
             }
@@ -468,6 +472,8 @@ impl Task {
                         self.pid, self.id
                     )));
                 }
+                // what is still open beneath the task (the steps of a catch it is running) is closed with it
+                ctx.skip_tasks_beneath(self)?;
                 self.set_state(TaskState::Completed);
                 self.next(ctx)?;
             }
@@ -585,6 +591,8 @@ impl Task {
                 }
 
                 // set both current act and parent step to skip
+                // what is still open beneath the task (the steps of a catch it is running) is closed with it
+                ctx.skip_tasks_beneath(self)?;
                 self.set_state(TaskState::Skipped);
                 self.next(ctx)?;
             }
